@@ -228,11 +228,26 @@ type PrngCase struct {
 	ChunkA []int    `json:"a"`
 	ChunkB []int    `json:"b"`
 	Total  int      `json:"total"`
+	// Layout, when non-empty, places the seed parts in one backing buffer: part i lives at
+	// offset Layout[i] (parts may be adjacent, leaving the earlier ones spare capacity that
+	// holds the later ones)
+	Layout []int `json:"layout,omitempty"`
 }
 
 func genPrng(t *rapid.T) PrngCase {
 	var c PrngCase
 	c.Seed = rapid.SliceOfN(rapid.SliceOfN(rapid.Byte(), 0, 8), 0, 3).Draw(t, "seed")
+	if len(c.Seed) >= 2 && rapid.IntRange(0, 2).Draw(t, "aliased") == 0 {
+		// a permutation of the parts inside one buffer, with generated gaps
+		perm := rapid.Permutation([]int{0, 1, 2}[:len(c.Seed)]).Draw(t, "perm")
+		c.Layout = make([]int, len(c.Seed))
+		off := 0
+		for _, i := range perm {
+			off += rapid.IntRange(0, 2).Draw(t, "gap")
+			c.Layout[i] = off
+			off += len(c.Seed[i])
+		}
+	}
 	c.Total = rapid.IntRange(0, ev.Pick(100, 600)).Draw(t, "total")
 	c.ChunkA = rapid.SliceOfN(rapid.IntRange(0, 19), 1, 12).Draw(t, "a")
 	c.ChunkB = rapid.SliceOfN(rapid.IntRange(0, 19), 1, 12).Draw(t, "b")
@@ -280,6 +295,51 @@ func checkPrng(v *ev.Verdict, c PrngCase) {
 		seed2 := make([][]byte, len(c.Seed))
 		for i := range c.Seed {
 			seed2[i] = append([]byte(nil), c.Seed[i]...)
+		}
+		if len(c.Layout) == len(c.Seed) && len(c.Seed) > 0 {
+			// the caller's seed parts are windows of one buffer: equal seed data all the same,
+			// and the buffer belongs to the caller
+			end := 0
+			for i, o := range c.Layout {
+				if o+len(c.Seed[i]) > end {
+					end = o + len(c.Seed[i])
+				}
+			}
+			backing := make([]byte, end+4)
+			for i := range backing {
+				backing[i] = 0x5a
+			}
+			for i, o := range c.Layout {
+				copy(backing[o:], c.Seed[i])
+			}
+			orig := append([]byte(nil), backing...)
+			al := make([][]byte, len(c.Seed))
+			for i, o := range c.Layout {
+				al[i] = backing[o : o+len(c.Seed[i])]
+			}
+			sa, sc := prng.BuildSeededRand(al...), prng.BuildSeededRand(seed2...)
+			if !bytes.Equal(backing, orig) {
+				v.Add(P, "prng:seed-buffer-modified", "BuildSeededRand changed the caller's seed buffer (layout %v)", c.Layout)
+				return
+			}
+			for i := 0; i < 4; i++ {
+				if sa.Uint64() != sc.Uint64() {
+					v.Add(P, "prng:source-diverges", "a source built from seed parts that share one buffer (layout %v) differs from the source built from copies of the same data at word %d", c.Layout, i)
+					return
+				}
+			}
+			rd := prng.BuildSeededReader(al...)
+			if !bytes.Equal(backing, orig) {
+				v.Add(P, "prng:seed-buffer-modified", "BuildSeededReader changed the caller's seed buffer (layout %v)", c.Layout)
+				return
+			}
+			got, err := readChunked(rd, 16, []int{5})
+			want, _ := readChunked(prng.BuildSeededReader(seed2...), 16, []int{16})
+			if err != nil || !bytes.Equal(got, want) {
+				v.Add(P, "prng:chunking", "a reader built from seed parts that share one buffer (layout %v) differs from the reader built from copies (err %v)", c.Layout, err)
+				return
+			}
+			v.Class("prng-aliased-seed-parts")
 		}
 		s1, s2 := prng.BuildSeededRand(c.Seed...), prng.BuildSeededRand(seed2...)
 		words := (c.Total + 7) / 8
@@ -471,6 +531,74 @@ func checkPrefixPar(v *ev.Verdict, c PrefixParCase) {
 	})
 	v.SetNT(P)
 	v.Class("prefix-concurrent-callers")
+}
+
+// PadParCase: goroutines pad and unpad their own messages at the same time.
+type PadParCase struct {
+	Lens  []int `json:"lens"`
+	Spare []int `json:"spare"`
+	G     int   `json:"g"`
+	R     int   `json:"r"`
+}
+
+func genPadPar(t *rapid.T) PadParCase {
+	n := rapid.IntRange(2, 6).Draw(t, "n")
+	c := PadParCase{G: rapid.IntRange(2, 16).Draw(t, "g"), R: rapid.SampledFrom([]int{50, 300, 2000}).Draw(t, "r")}
+	for i := 0; i < n; i++ {
+		c.Lens = append(c.Lens, genLen(t, 100))
+		c.Spare = append(c.Spare, rapid.SampledFrom([]int{0, 0, 1, 5, 40}).Draw(t, "spare"))
+	}
+	return c
+}
+
+// checkPadPar: the round trip is a statement about each call's own argument; callers that
+// pad their own buffers at the same time must each get their own message back.
+func checkPadPar(v *ev.Verdict, c PadParCase) {
+	guard(v, "padding:pad-panic", func() {
+		var wg sync.WaitGroup
+		var bad atomic.Int64
+		for g := 0; g < c.G; g++ {
+			wg.Add(1)
+			go func() {
+				defer wg.Done()
+				defer func() {
+					if r := recover(); r != nil {
+						bad.Store(-1)
+					}
+				}()
+				for r := 0; r < c.R && bad.Load() == 0; r++ {
+					i := (g + r) % len(c.Lens)
+					x := make([]byte, c.Lens[i], c.Lens[i]+c.Spare[i])
+					for k := range x {
+						x[k] = byte(g*31 + k + r)
+					}
+					want := append([]byte(nil), x...)
+					p := padding.PadInPlace(x)
+					if len(p) == 0 || len(p)%32 != 0 || !bytes.HasPrefix(p, want) {
+						bad.Store(int64(i) + 1)
+						return
+					}
+					u, err := padding.UnpadInPlace(p)
+					if err != nil || !bytes.Equal(u, want) {
+						bad.Store(int64(i) + 1)
+						return
+					}
+				}
+			}()
+		}
+		wg.Wait()
+		if b := bad.Load(); b > 0 {
+			v.Add(P, "padding:roundtrip-mismatch", "PadInPlace/UnpadInPlace of a message of length %d (spare %d) did not round-trip while %d goroutines pad their own messages concurrently", c.Lens[b-1], c.Spare[b-1], c.G)
+		} else if b < 0 {
+			v.Add(P, "padding:pad-panic", "PadInPlace/UnpadInPlace panicked while %d goroutines pad their own messages concurrently", c.G)
+		}
+	})
+	v.SetNT(P)
+	v.Class("pad-concurrent-callers")
+}
+
+func TestC19PadPar(t *testing.T) {
+	drive(t, "2..6 message lengths (boundary-biased) with 0..40 bytes of spare capacity, 2..16 goroutines each padding and unpadding their own fresh buffers 50..2000 times in parallel; oracle: every call's result is a positive multiple of 32 long, starts with the caller's message and unpads to it; non-trivial always; distinct by input", genPadPar, checkPadPar)
 }
 
 func TestC19PrefixPar(t *testing.T) {
